@@ -420,7 +420,10 @@ func constText(v *variants.Variant) string {
 		}
 		return "false"
 	}
-	return v.String()
+	if v.Type() == variants.String {
+		return "'" + v.String() + "'"
+	}
+	return cl(v.String())
 }
 
 // evalSymbolic sets and evaluates text on a real calculator with the recording manager installed.
@@ -641,7 +644,7 @@ func execSame(a *xast, root int, seed int64, in Ev) Ev {
 		case res == nil:
 			return []any{"nil"}
 		}
-		return []any{"value", int(res.Type()), res.String()}
+		return []any{"value", int(res.Type()), cl(res.String())}
 	}
 	e["a"] = run(0, false)
 	e["b"] = run(2, true)
